@@ -12,6 +12,9 @@ CHECKS = {
  "C03": ("two-run re-parse relation monitor with mechanism diagnosis (locate innermost non-fixed-point node)",
          "r2 = T(T(x)) must equal r1 = T(x) (type- and NaN-aware) for generated types incl. unions and data classes; lax outputs on exact domains must satisfy the strict form.",
          "Trusted: values.approx_eq, constraints_ref. Nine mechanism-keyed known findings (lax carry/drift/order, union/xor/and re-resolution) are listed; anything else is a violation.", "§4 C03"),
+ "C06": ("strategy-differential monitor: each generated (declaration, input, options) parsed with data_first_search on and off (runtime and class Options routes), fail-fast and with collect_errors",
+         "Both strategies must accept with equal key and attribute views, or fail with the same kind ((kind,item) multisets under collect_errors), over declarations spanning the Field parameter space and inputs with aliases, case variants, duplicate spellings, unknown keys, absent fields and invalid values.",
+         "Relation between two runs of the library (no reference model). Four divergences repaired in /repo; three mechanism-keyed known findings remain (recognised by the parser's own field facts + outcome shape).", "§4 C06"),
  "C09": ("combinator semantics monitor: argument-relative oracle (each argument evaluated alone on the original input, per union stage), all permutations of ^, structural construction algebra",
          "For generated combinator nodes over disagreeing argument types: | accepts <=> some argument accepts in one of the three stages and returns an accepting argument's output (exact-type inputs returned unchanged); ^ accepts <=> exactly one argument accepts, identically for every argument order; ~ accepts <=> argument rejects, returning the input object; & equals the left fold. ~~T, duplicate/Any absorption, same-kind flattening and operator order with data classes are checked on the built types.",
          "Argument verdicts come from the library itself on fresh contexts (relation between runs). One known finding (^ exact-type shortcut). One-shot inputs skipped.", "§4 C09"),
